@@ -79,7 +79,11 @@ func C02Grid(tier string) []*Config {
 	out := PlayGrid(tier)
 	for _, c := range out {
 		if tier != "thorough" {
-			c.Amounts = "classes"
+			if c.Amounts == "all" {
+				if c.Amounts == "all" {
+					c.Amounts = "classes"
+				}
+			}
 		}
 	}
 	add := func(c *Config) { out = append(out, c) }
